@@ -1207,7 +1207,7 @@ Theorem rs_late_among_others_delivers E parse_fdt cfg oti content rep toi md5 no
   rs_scheme_ok oti L -> rs_blocks_ok oti L -> toi <> 0 -> parse_fdt d = Some inst ->
   fdt_entry_for (fi_files inst) (fi_oti inst) toi oti L md5 ->
   writer_accepts E toi -> writes_succeed E toi -> md5_good E content md5 ->
-  rs_oracle_mds E oti content rep toi ->
+  rs_oracle_mds E oti content rep toi -> rs_rep_sized oti rep ->
   rs_mem_need oti L <= cf_max_cache cfg -> nb_blocks_of oti L <= 4097 ->
   Forall (fun p => a_toi p = 0 -> fdt_copy cfg inst now id foti d p) evs ->
   (exists p, In p evs /\ a_toi p = 0) ->
@@ -1218,7 +1218,7 @@ Theorem rs_late_among_others_delivers E parse_fdt cfg oti content rep toi md5 no
   let '(_, r, c) := recv_run E parse_fdt cfg recv0 (map (fun p => RvPush p now) evs) ctx0 in
   multi_delivered cfg inst content toi r c.
 Proof.
-  intros L (Hrsf & He & Hb & HL & Hu) Hrs Htoi Hparse (f & F1 & F2 & F3 & F4 & F5) Hacc Hwr Hmd5 Hor Hmax Hn F0 Hf mn G Ib Rec.
+  intros L (Hrsf & He & Hb & HL & Hu) Hrs Htoi Hparse (f & F1 & F2 & F3 & F4 & F5) Hacc Hwr Hmd5 Hor Hrz Hmax Hn F0 Hf mn G Ib Rec.
   destruct (rs_is_cls oti Hrsf) as [Hcls Hfec].
   destruct (partition_of oti L) as [[[al as_] nal] n] eqn:Hpart.
   pose proof (top_sound E oti content rep toi al as_ nal n Hcls He Hb HL Hpart (rs_oracle_mds_sound _ _ _ _ _ Hor)) as Hsound.
@@ -1230,7 +1230,7 @@ Proof.
     apply (rs_blocks_ok_spec oti L); assumption. }
   assert (G' : Forall (genr oti content rep al as_ nal n) mn).
   { pose proof (rs_genuine_pkt_spec oti content rep al as_ nal n mn Hpart G) as G1. eapply Forall_impl; [|exact G1].
-    intros p Hp. split; [exact Hp|apply rs_sized_trivial; exact Hrsf]. }
+    intros p Hp. split; [exact Hp|exact (rs_genuine_sized oti content rep al as_ nal n p Hrsf Hrz Hp)]. }
   pose proof (rs_late_core' E parse_fdt cfg oti content rep toi md5 al as_ nal n now Hfec He Hb HL Hu Hpart' Htoi Hsound HM Nc Hacc
                 id inst f F1 F2 F3 F4 F5 foti d Hparse evs F0 Hf (rs_late_ft oti content rep toi al as_ nal n evs G' Ib)) as D.
   assert (D' : let '(_, r, c) := recv_run E parse_fdt cfg recv0 (map (fun p => RvPush p now) evs) ctx0 in
@@ -1342,7 +1342,7 @@ Theorem rs_late_among_others_delivers_any_flag_before_fdt E parse_fdt cfg oti co
   rs_scheme_ok oti L -> rs_blocks_ok oti L -> toi <> 0 -> parse_fdt d = Some inst ->
   fdt_entry_for (fi_files inst) (fi_oti inst) toi oti L md5 ->
   writer_accepts E toi -> writes_succeed E toi -> md5_good E content md5 ->
-  rs_oracle_mds E oti content rep toi ->
+  rs_oracle_mds E oti content rep toi -> rs_rep_sized oti rep ->
   rs_mem_need oti L <= cf_max_cache cfg -> nb_blocks_of oti L <= 4097 ->
   Forall (fun p => a_toi p <> 0) pre ->
   fdt_copy cfg inst now id foti d pf ->
@@ -1356,7 +1356,7 @@ Theorem rs_late_among_others_delivers_any_flag_before_fdt E parse_fdt cfg oti co
   let '(_, r, c) := recv_run E parse_fdt cfg recv0 (map (fun p => RvPush p now) (pre ++ pf :: post)) ctx0 in
   multi_delivered cfg inst content toi r c.
 Proof.
-  intros L (Hrsf & He & Hb & HL & Hu) Hrs Htoi Hparse (f & F1 & F2 & F3 & F4 & F5) Hacc Hwr Hmd5 Hor Hmax Hn Fz Hpf F0 m1 m2 G Ib Cl Rec.
+  intros L (Hrsf & He & Hb & HL & Hu) Hrs Htoi Hparse (f & F1 & F2 & F3 & F4 & F5) Hacc Hwr Hmd5 Hor Hrz Hmax Hn Fz Hpf F0 m1 m2 G Ib Cl Rec.
   destruct (rs_is_cls oti Hrsf) as [Hcls Hfec].
   destruct (partition_of oti L) as [[[al as_] nal] n] eqn:Hpart.
   pose proof (top_sound E oti content rep toi al as_ nal n Hcls He Hb HL Hpart (rs_oracle_mds_sound _ _ _ _ _ Hor)) as Hsound.
@@ -1370,7 +1370,7 @@ Proof.
   { intros l H. apply (recoverable_covered_rs oti); [exact Hcls|]. unfold rs_recoverable, source_ks in H. rewrite Hpart in H. exact H. }
   assert (G' : Forall (genr oti content rep al as_ nal n) (m1 ++ m2)).
   { pose proof (rs_genuine_pkt_spec oti content rep al as_ nal n (m1 ++ m2) Hpart G) as G1. eapply Forall_impl; [|exact G1].
-    intros p Hp. split; [exact Hp|apply rs_sized_trivial; exact Hrsf]. }
+    intros p Hp. split; [exact Hp|exact (rs_genuine_sized oti content rep al as_ nal n p Hrsf Hrz Hp)]. }
   apply Forall_app in G'. destruct G' as [G1 G2].
   assert (Zf : a_toi pf = 0) by (destruct Hpf as ((Hz & _) & _); exact Hz).
   pose proof (rs_late_core_any_flag E parse_fdt cfg oti content rep toi md5 al as_ nal n now Hfec He Hb HL Hu Hpart' Htoi Hsound HM Nc Hacc
